@@ -18,6 +18,7 @@ import TshVerif.Sem2.Bash
 import TshVerif.Sem2.Cover
 import TshVerif.Sem.CmdFrag
 import TshVerif.Sem.CmdTree
+import TshVerif.Sem.CmdLines
 
 open Tsh
 
@@ -177,7 +178,7 @@ def handleSem (args : List String) : String :=
     | .diverge => "DIVERGE"
 
 /-- SEMB: source files -> the two semantic models of the Batch target on the same program (scalar fragment only).
-    answer `SEMB <src32> <cmd> <S|C|L|F|N> <tree>`: `Sem/Src32` on the AST, `Sem/Cmd` (the program-counter machine) on the emitted
+    answer `SEMB <src32> <cmd> <S|C|L|F|N> <tree> <lines>` (`<lines>`: `Sem/CmdLines.lrun`, the line-level semantics, on the lines from the first program line on): `Sem/Src32` on the AST, `Sem/Cmd` (the program-counter machine) on the emitted
     lines, `Sem/CmdTree` (the block tree rebuilt from the lines, executed by `execBs`; L = fragment of `batch_preserves_scalar_semantics`), and whether the program is in the straight-line fragment of `C05S.batch_preserves_straight_line_semantics_partial` (S),
     in the fragment of `batch_preserves_conditional_semantics_partial` (C: scalar, no loops), in the scalar fragment (F) or in neither (N) -/
 def handleSemB (args : List String) : String :=
@@ -195,8 +196,11 @@ def handleSemB (args : List String) : String :=
       let tree := if f1 then (match Batch.compile p.body with
         | .ok ls => semRes (SemB.runTree 2000000 ls)
         | _ => "U") else "-"
+      let lines := if f1 then (match Batch.compile p.body with
+        | .ok ls => semRes (SemB.runLines 2000000 ls)
+        | _ => "U") else "-"
       "SEMB " ++ src ++ " " ++ cmd ++ " " ++ (if st && f1 then "S" else if f1 && C05S.noLoopStmts p.body then "C"
-        else if f1 && C05S.simpleLoopsStmts p.body then "L" else if f1 then "F" else "N") ++ " " ++ tree
+        else if f1 && C05S.simpleLoopsStmts p.body then "L" else if f1 then "F" else "N") ++ " " ++ tree ++ " " ++ lines
     | .error => "ERR"
     | .panic => "PANIC"
     | .diverge => "DIVERGE"
